@@ -28,7 +28,14 @@ def impl_one(case):
     rule = persist_rule(("dtsf", case["lam1"], case["lam2"], case["zero"]), lambda: DoubleLambdaTSF(case["lam1"], case["lam2"], zero_indexed=case["zero"]))
     sim = rule.get_simulated_cardinal_profiles(P1, P2, mk(case["V1"]), mk(case["V2"]))
     out = rule.scf(P1, P2, mk(case["V1"]), mk(case["V2"]))
-    return {"pairs": [[int(a), int(b)] for a, b in out], "S1": [[int(x) for x in row] for row in sim[0]], "S2": [[int(x) for x in row] for row in sim[1]]}
+    res = {"pairs": [[int(a), int(b)] for a, b in out], "S1": [[int(x) for x in row] for row in sim[0]], "S2": [[int(x) for x in row] for row in sim[1]]}
+    if case.get("stages"):
+        # the internal stages of the stable-matching step (Irving on the simulated values), for the stage-by-stage comparison with the Lean mirror
+        try:
+            res["stages"], _ = S.irving_stages(case["P1"], case["P2"], res["S1"], res["S2"])
+        except Exception as e:  # noqa
+            res["stages_exc"] = type(e).__name__ + ": " + str(e)[:150]
+    return res
 
 
 def sim2_lines(P, V, lam):
@@ -126,7 +133,20 @@ def gen(R, nmax, count):
         n = R.rng.randint(1, nmax)
         P1, P2 = S.rand_ranks(R.rng, n), S.rand_ranks(R.rng, n)
         kind = R.rng.choice(["ties_0_3", "wide", "zeros", "strict"])
-        if kind == "ties_0_3":
+        if t % 3 == 1 and n >= 3:
+            # opposed interests: many rotations, dense rotation posets (uniformly random profiles have one or two rotations)
+            P1, P2 = S.opposed_ranks(R.rng, n, R.rng.choice([0.0, 2.0, 4.0]))
+            R.count("opposed_interests")
+        if t % 6 == 4:
+            kind = "huge"
+        if kind == "huge":
+            # values of the order of 10^9 (every value and every difference fits 32 bits, sums of a few of them do not); one side may be indifferent
+            V1 = S.vals_agreeing(R.rng, P1, 0, 2 * 10 ** 9)
+            V2 = S.vals_agreeing(R.rng, P2, 0, R.rng.choice([0, 1, 2 * 10 ** 9]))
+            if R.rng.random() < 0.5:
+                V1, V2 = V2, V1
+                V1, V2 = S.vals_agreeing(R.rng, P1, 0, max(max(r) for r in V1)), S.vals_agreeing(R.rng, P2, 0, max(max(r) for r in V2))
+        elif kind == "ties_0_3":
             V1, V2 = S.vals_agreeing(R.rng, P1, 0, 3), S.vals_agreeing(R.rng, P2, 0, 3)
         elif kind == "wide":
             V1, V2 = S.vals_agreeing(R.rng, P1, 0, 60), S.vals_agreeing(R.rng, P2, 0, 60)
@@ -150,6 +170,8 @@ def gen_blocks(R, count):
 
 
 def run_items(R, items):
+    for it in items:
+        it["stages"] = len(it["P1"]) <= 8 or bool(R.thorough)
     results = pmap("c17", "impl_one", items, deadline=60.0, workers=12)
     # the model's own brute-force optimum over all stable matchings, for the simulated values (which are compared with the
     # model's `simulate2` below): C03_optStable_spec / C17_brute_optimal
@@ -163,6 +185,13 @@ def run_items(R, items):
             except Exception:  # noqa
                 pass
     c03.brute_compare(R, bitems, bres, entry=ENTRY)
+    # the matching step is Irving's algorithm on the simulated values: final answer and every internal stage against the Lean mirror
+    mitems, mres = [], []
+    for it, r in zip(items, results):
+        if isinstance(r, dict) and "pairs" in r and "S1" in r:
+            mitems.append(dict(it, V1=r["S1"], V2=r["S2"]))
+            mres.append(r)
+    c03.mirror_compare(R, mitems, mres, entry=ENTRY)
     need, idx = [], []
     for i, (it, r) in enumerate(zip(items, results)):
         if "pairs" in r:
